@@ -168,6 +168,96 @@ def positive(ctx, gt, ir, sp):
                                       % type(x).__name__, {})
 
 
+def late_reads(ctx, case, gt, prop="C09"):
+    """Tables are decoded when first read: an entry is the node attached
+    under that UUID *then*, or a plain UUID if there is none then - whatever
+    other tables naming the same UUID were read before, and whatever the IR
+    looked like at those times."""
+    rnd = case.rnd
+    ir = gt.IR()
+    m = gt.Module(name="m", ir=ir)
+    bi = gt.ByteInterval(size=16, section=gt.Section(name="s", module=m))
+    live = [gt.CodeBlock(offset=i, size=1, byte_interval=bi)
+            for i in range(3)] + [gt.ProxyBlock(module=m)]
+    ghosts = [_uuid.UUID(int=rnd.getrandbits(128)) for _ in range(2)]
+    pool = [n.uuid for n in live] + ghosts
+
+    def table():
+        us = rnd.sample(pool, rnd.randint(2, len(pool)))
+        k = rnd.randrange(4)
+        if k == 0:
+            return list(us), "sequence<UUID>"
+        if k == 1:
+            return {u: i for i, u in enumerate(us)}, "mapping<UUID,uint64_t>"
+        if k == 2:
+            return {gt.Offset(u, i) for i, u in enumerate(us)}, "set<Offset>"
+        return us[0], "UUID"
+    for holder in (ir, m):
+        for i in range(rnd.randint(2, 4)):
+            v, t = table()
+            holder.aux_data["t%d" % i] = gt.AuxData(v, t)
+    ir2 = irio.load(gt, irio.save(ir))
+    m2 = ir2.modules[0]
+    bi2 = next(iter(m2.byte_intervals))
+    attached = {n.uuid: n for n in world.reachable(gt, ir2)}
+    detached = {}
+    todo = [(h, k) for h in (ir2, m2) for k in sorted(h.aux_data)]
+    rnd.shuffle(todo)
+    log = []
+    for h, k in todo:
+        for _ in range(rnd.randint(0, 2)):
+            e = rnd.randrange(3)
+            cands = [u for u in pool if u in attached]
+            if e == 0 and cands:
+                u = rnd.choice(cands)
+                n = attached.pop(u)
+                if isinstance(n, gt.ProxyBlock):
+                    n.module = None
+                else:
+                    n.byte_interval = None
+                detached[u] = n
+                log.append("detach %s" % type(n).__name__)
+            elif e == 1 and detached:
+                u = rnd.choice(sorted(detached))
+                n = detached.pop(u)
+                if isinstance(n, gt.ProxyBlock):
+                    n.module = m2
+                else:
+                    n.byte_interval = bi2
+                attached[u] = n
+                log.append("re-attach %s" % type(n).__name__)
+            elif e == 2:
+                free = [g for g in ghosts if g not in attached
+                        and g not in detached]
+                if free:
+                    n = gt.ProxyBlock(uuid=free[0], module=m2)
+                    attached[free[0]] = n
+                    log.append("attach a new node under a UUID that "
+                               "named nothing when the file was loaded")
+        d = h.aux_data[k].data
+        log.append("first read of %s.%s" % (type(h).__name__, k))
+        case.ops = [{"late_reads": list(log)}]
+        items = d if isinstance(d, (list, set)) else (
+            list(d) if isinstance(d, dict) else [d])
+        for x in items:
+            x = x.element_id if isinstance(x, gt.Offset) else x
+            ctx.count("late_read:entries")
+            if isinstance(x, gt.Node):
+                if attached.get(x.uuid) is not x:
+                    raise Discrepancy(
+                        prop, "late-read:node-for-unattached-uuid",
+                        "an entry read for the first time after edits is a "
+                        "%s object that is not attached under that UUID now"
+                        % type(x).__name__, {"history": log})
+            elif x in attached:
+                raise Discrepancy(
+                    prop, "late-read:plain-uuid-for-attached-node",
+                    "an entry read for the first time after edits is a "
+                    "plain UUID although a node is attached under it now",
+                    {"history": log})
+    ctx.count("late_read:histories")
+
+
 def reference_sites(data):
     """[(kind, container dict, key)] for every reference in message data."""
     out = []
@@ -317,6 +407,7 @@ def run(ctx):
             ctx.seen("nontrivial", gspec.normalize(sp))
         negative(ctx, case, gtirb, sp)
         dup_uuid_cases(ctx, case, gtirb, sp)
+        late_reads(ctx, case, gtirb)
         if case.index % 151 == 0:
             ctx.sample({"summary": gspec.summary(sp),
                         "references_checked": after - before})
